@@ -40,6 +40,17 @@ def run(ctx):
     ctx.floor("ACC", 16)
 
 
+def _int_bytes(t):
+    """byte i of `x.to_be_bytes()` / `to_le_bytes()` (u32) written as the shift-and-mask of x it is"""
+    if not isinstance(t, tuple) or not t:
+        return t
+    if t[0] == "cidx" and isinstance(t[1], tuple) and t[1][0] == "call" and t[1][1] in (
+            "core::num::<impl u32>::to_be_bytes", "core::num::<impl u32>::to_le_bytes") and isinstance(t[2], int) and t[3] is False and 0 <= t[2] < 4:
+        sh = (3 - t[2]) * 8 if t[1][1].endswith("to_be_bytes") else t[2] * 8
+        return ("bin", "BitAnd", ("bin", "Shr", _int_bytes(t[1][3]), ("int", sh, "u32")), ("int", 255, "u32"))
+    return tuple(_int_bytes(x) if isinstance(x, tuple) else x for x in t)
+
+
 def cond_set_wide(paths, hole, lo=0, hi=(1 << 32) - 1):
     """union over paths of { v : all conditions of the path hold }"""
     out = []
@@ -50,6 +61,7 @@ def cond_set_wide(paths, hole, lo=0, hi=(1 << 32) - 1):
             if r is None or r[0] is None:
                 continue
             term, pol = r
+            term = _int_bytes(term)
             if byteset.holes(term) != [hole]:
                 continue
             term = term if pol else ("un", "Not", term)
